@@ -152,6 +152,41 @@ theorem C20_escape_faithful (s : List Char) (h : '\x00' ∉ s) : decodeRefs (htm
                 · rename_i h2 h3 h4 h5 h6 h7
                   simp only [List.cons_append, List.nil_append]
                   rw [decodeRefs_plain c _ h3, ih ht]
+/-- Full strength (no hypothesis): decoding the escaped form gives the text with each NUL shown as U+FFFD — the only
+character the escaper does not carry over, and a replacement the client does not choose. -/
+theorem C20_escape_faithful_total (s : List Char) :
+    decodeRefs (htmlEscape s) = s.map (fun c => if c = '\x00' then '�' else c) := by
+  induction s with
+  | nil => rfl
+  | cons c t ih =>
+    have e : htmlEscape (c :: t) = escChar c ++ htmlEscape t := by simp [htmlEscape]
+    rw [e, List.map_cons]
+    by_cases h0 : c = '\x00'
+    · subst h0
+      have : escChar '\x00' = ['�'] := by decide
+      rw [this]
+      simp only [List.cons_append, List.nil_append, if_true]
+      rw [decodeRefs_plain _ _ (by decide), ih]
+    · have hd : decodeRefs (escChar c ++ htmlEscape t) = c :: decodeRefs (htmlEscape t) := by
+        unfold escChar
+        split
+        · contradiction
+        · split
+          · subst_vars; simp [decodeRefs]
+          · split
+            · subst_vars; simp [decodeRefs]
+            · split
+              · subst_vars; simp [decodeRefs]
+              · split
+                · subst_vars; simp [decodeRefs]
+                · split
+                  · subst_vars; simp [decodeRefs]
+                  · split
+                    · subst_vars; simp [decodeRefs]
+                    · rename_i h2 h3 h4 h5 h6 h7
+                      simp only [List.cons_append, List.nil_append]
+                      rw [decodeRefs_plain c _ h3]
+      rw [hd, ih]; simp [h0]
 /-- Tie (T1): every value-producing action of every template sso serves sits in a text node or inside a double-quoted
 attribute value that is not a URL / script / style attribute; both template files import `html/template`. -/
 theorem C20_all_action_sites_safe :
